@@ -42,11 +42,16 @@ X85 == FromInt(85)
 ExpTolFast == Ln(Add(One, D(0, 0, 1000, 0, 0)))          \* ln(1 + 1e-5)
 \* x <= 1e38 on exact me:  1e38 = 9860761.3 * 2^103
 LeqE38(a) == a[1] \in {0, 1, 2} /\ (a[4] + 23 < 126 \/ (a[4] + 23 = 126 /\ a[3] <= 9860761))
-ExpOk(xfx, xme, r, tol) ==
-  /\ (xfx[1] # 9 /\ Cmp(Abs(xfx), X85) <= 0) =>
-        (IsNormal(r) /\ r[2] = 1 /\ Cmp(Abs(Sub(LnME(r), xfx)), Add(tol, SpecEps)) <= 0)
+ExpSaturates(xfx, xme, r) ==
   /\ (xme[2] = 1 /\ LeqE38(xme) /\ (xfx[1] = 9 \/ Cmp(xfx, FromInt(89)) >= 0)) => r[1] = 3       \* +inf on [89, 1e38]
   /\ (xme[2] = -1 /\ LeqE38(xme) /\ (xfx[1] = 9 \/ Cmp(xfx, FromInt(-88)) <= 0)) => r[1] = 0     \* 0 on [-1e38, -88]
+\* `sat`: the saturation clauses of the fastmath contract (C18).  They are not demanded of the exact build (C20),
+\* where libm correctly returns subnormals just below -88.
+ExpOk(xfx, xme, r, tol, sat) ==
+  /\ (xfx[1] # 9 /\ Cmp(Abs(xfx), X85) <= 0) =>
+        (IsNormal(r) /\ r[2] = 1 /\ Cmp(Abs(Sub(LnME(r), xfx)), Add(tol, SpecEps)) <= 0)
+  /\ ~sat \/ ExpSaturates(xfx, xme, r)
+
 
 \* ---- 3x3 algebra (C19): tolerance 1e-5 * max(1, |exact|)
 RelTolAlg(v) == LET t == D(0, 0, 1000, 0, 0) IN IF Cmp(Abs(v), One) > 0 THEN Mul(t, Abs(v)) ELSE t
